@@ -152,5 +152,81 @@ func (ex *Exec) syncMapRange(s *State, instr ssa.Instruction, args []Val) callOu
 		s.assume(ex.evalBool(env2, inv.Expr))
 	}
 	ex.usedAssume["A-RANGE: sync.Map.Range calls the closure only with entries of the map, any number of times in any order"] = true
+	ex.rangeCompleteness(s, args, target, con, rng)
 	return callOut{}
+}
+
+// rangeCompleteness: what the closure's postconditions say about the whole
+// iteration. Range calls the closure for every entry until one call returns
+// false. So afterwards either some call returned false - then the closure's
+// postconditions with result == false hold in the final state, for some entry -
+// or every entry was visited with result == true - then its postconditions
+// with result == true hold for every entry. The second half is only usable for
+// clauses about the entry itself and captured values the closure does not
+// assign (their truth at visiting time is their truth now): a clause whose
+// meaning changes when the closure's assigns are havocked is left out.
+func (ex *Exec) rangeCompleteness(s *State, args []Val, target *ssa.Function, con *Contract, rng *rangeCtx) {
+	if len(con.Ensures) == 0 || len(target.Params) != 2 || target.Signature.Results().Len() != 1 {
+		return
+	}
+	mk := func(k Term, res Term) (*Env, bool) {
+		e, _, _ := ex.closureEnv(s, args[1], ex.key+"@Range")
+		if e == nil {
+			return nil, false
+		}
+		e.rng = rng
+		e.vars[target.Params[0].Name()] = SV{V: Scalar{k}, T: target.Params[0].Type()}
+		e.vars[target.Params[1].Name()] = SV{V: Scalar{Select(rng.val, k)}, T: target.Params[1].Type()}
+		rt := target.Signature.Results().At(0).Type()
+		e.vars["result"] = SV{V: Scalar{res}, T: rt}
+		e.vars["result0"] = SV{V: Scalar{res}, T: rt}
+		return e, true
+	}
+	stopped := s.declare(ex.g.fresh("rstop"), SBool)
+	// (a) stopped early: at some entry the closure returned false
+	ks := s.declare(ex.g.fresh("rk"), SIface)
+	ex.assumeWF(s, ks, nil)
+	if envS, ok := mk(ks, TFalse); ok {
+		conj := Select(rng.dom, ks)
+		for _, e := range con.Ensures {
+			if mentionsOld(e.Expr) {
+				continue
+			}
+			conj = And(conj, ex.evalBool(envS, e.Expr))
+		}
+		s.assume(Implies(stopped, conj))
+	}
+	// (b) ran to the end: every entry was visited with result == true
+	kq := s.declare(ex.g.fresh("rq"), SIface)
+	assigned := map[string]bool{}
+	var roots func(e *E)
+	roots = func(e *E) {
+		if e == nil {
+			return
+		}
+		if e.Op == "id" {
+			assigned[e.Name] = true
+		}
+		for _, a := range e.Args {
+			roots(a)
+		}
+	}
+	for _, a := range con.Assigns {
+		roots(a.Expr)
+	}
+	if envC, ok := mk(kq, TTrue); ok {
+		body := TTrue
+		for _, e := range con.Ensures {
+			if mentionsOld(e.Expr) || mentionsAny(e.Expr, assigned) {
+				continue // not about the entry alone: its truth at visiting time is not its truth now
+			}
+			body = And(body, ex.evalBool(envC, e.Expr))
+		}
+		if body.S != "true" {
+			b := "rqb_" + strings.TrimPrefix(kq.S, "rq")
+			q := strings.ReplaceAll(Implies(Select(rng.dom, kq), body).S, kq.S, b)
+			s.assume(Implies(Not(stopped), Term{fmt.Sprintf("(forall ((%s %s)) %s)", b, SIface, q), SBool}))
+		}
+	}
+	ex.usedAssume["A-RANGE-ALL: sync.Map.Range calls the closure for every entry of the map until a call returns false (no concurrent modification during one step)"] = true
 }
